@@ -93,58 +93,34 @@ variable {V P : Type}
 
 /-! ## arguments: what a parameter receives -/
 
-/-- **collapse_sound.** When every leaf of a declared dependency is a plain Python value, the
-argument is stored in one `PythonNode` (or collected leaf by leaf) and loading gives back the
-declared value unchanged. -/
-theorem C07_collapse_sound (value : T (Decl V P)) (h : ∀ d ∈ leaves value, isPlainValue d = true) :
+/-- **kwargs_correct, per dependency (full).** A dependency parameter receives the declared tree with
+every leaf replaced by the value loaded from its node — same containers, same positions — for
+*every* declaration (a container of plain values may be stored in one `PythonNode`, **collapse_sound**:
+loading it gives the declared value back; a container holding a user-written node is collected
+leaf by leaf since fix 594c921, which removed finding F70). -/
+theorem C07_dep_full (value : T (Decl V P)) :
     PyTree.bind (load false) (collectDep value) = map depObj value := by
   unfold collectDep
-  simp only [mapWithPath_const]
+  simp only [mapWithPath_const, Generated.collapseKeepsUserNodes, Bool.true_and]
   split
-  · simp only [PyTree.bind, load, Bool.false_eq_true, ↓reduceIte]
+  · rename_i hc
+    simp only [isLeafTree_map, leaves_map, List.all_map, Bool.and_eq_true, Bool.not_eq_true',
+      List.any_eq_false, List.all_eq_true, Function.comp] at hc
+    simp only [PyTree.bind, load, Bool.false_eq_true, ↓reduceIte]
     rw [← bind_leaf, ← bind_leaf]
     apply PyTree.bind_congr
     intro d hd
-    have := h d hd
-    cases d <;> simp_all [isPlainValue, rawObj, depObj]
+    have h1 := hc.1.2 d hd
+    have h2 := hc.2 d hd
+    cases d <;> simp_all [isNodeDecl, collectLeaf, isUnhashedPy, rawObj, depObj]
   · rw [PyTree.bind_map]
     simp only [load_collectLeaf_dep]
     exact bind_leaf depObj value
 
-/-- **kwargs_correct, per dependency (partial).** Outside the class of finding F70 a dependency
-parameter receives the declared tree with every leaf replaced by the value loaded from its node:
-same containers, same positions. -/
-theorem C07_dep_partial (value : T (Decl V P)) (h : f70Class value = false) :
-    PyTree.bind (load false) (collectDep value) = map depObj value := by
-  unfold collectDep
-  simp only [mapWithPath_const]
-  split
-  · rename_i hc
-    simp only [isLeafTree_map, leaves_map, List.all_map, Bool.and_eq_true] at hc
-    have h' : (∀ x ∈ leaves value, isUnhashedPy (collectLeaf x) = true) →
-        ∀ x ∈ leaves value, isPlainValue x = true := by
-      simpa [f70Class, hc.1] using h
-    have hall := h' (by simpa using hc.2)
-    have := C07_collapse_sound value hall
-    unfold collectDep at this
-    simp only [mapWithPath_const, isLeafTree_map, leaves_map, List.all_map, hc.1, hc.2, Bool.and_self,
-      ↓reduceIte] at this
-    exact this
-  · rw [PyTree.bind_map]
-    simp only [load_collectLeaf_dep]
-    exact bind_leaf depObj value
-
-/-- The full statement (every declared dependency, no exception) … -/
-def C07_dep_full : Prop :=
-  ∀ (value : T (Decl Nat Nat)), PyTree.bind (load false) (collectDep value) = map depObj value
-
-/-- … is false of the current code (finding F70): `x={"a": PythonNode(value=1), "b": 2}` arrives
-as `{"a": <the PythonNode object>, "b": 2}`. -/
-theorem C07_dep_full_false : ¬ C07_dep_full := by
-  intro h
-  have := h (.dict [(.str "a", .leaf (.pyNode 1 false)), (.str "b", .leaf (.value 2))])
-  simp [collectDep, mapWithPath, mapWithPathD, isLeafTree, leaves, leavesD, collectLeaf, isUnhashedPy, PyTree.bind, load,
-    map, mapD, rawObj, depObj] at this
+/-- **collapse_sound.** In particular, when every leaf is a plain Python value the declared value
+comes back unchanged. -/
+theorem C07_collapse_sound (value : T (Decl V P)) (_h : ∀ d ∈ leaves value, isPlainValue d = true) :
+    PyTree.bind (load false) (collectDep value) = map depObj value := C07_dep_full value
 
 /-- **kwargs_correct, per product.** A product parameter receives the declared tree with paths as
 (resolved) paths and every node as the node object itself. -/
@@ -269,37 +245,6 @@ theorem C07_return_nowrong (isProv : N → Bool) (canSave : N → T W → Bool) 
 
 end
 
-/-! ## the declaration forms mixed (findings F71, F72) -/
-
-/-- The full statement for products: with every supported way of declaring products, each product
-parameter of the function is bound to its declared tree (`prodObj` leaf-wise)… -/
-def C07_products_full : Prop :=
-  ∀ (f : Func String String) (t : Task String String) (r : Dict (T (Obj String String))) (p : Param String String),
-    collectTask ⟨"None", fun v => v == "None"⟩ f = .ok t → received f t = .ok r → p ∈ f.params →
-    (p.product = true ∨ p.name = "produces") → ∀ d, p.default = some d → Dict.get f.kwargs p.name = none → p.node = none →
-    Dict.get r p.name = some (map prodObj d)
-
-/-- … is false of the current code in two ways. F71: `@task(produces=…)` re-binds the products dict,
-so `path: Annotated[Path, Product] = Path("a.txt")` is never collected and the function receives
-the raw, unresolved default. -/
-theorem C07_products_full_false_F71 : ¬ C07_products_full := by
-  intro h
-  have := h ⟨[⟨"path", some (.leaf (.path "a")), none, true⟩], none, [], some (.leaf (.path "ret"))⟩
-    ⟨[], [("return", .leaf (.pathNode "ret"))]⟩ [("path", .leaf (.rawPath "a"))]
-    ⟨"path", some (.leaf (.path "a")), none, true⟩ (by rfl) (by rfl) (by simp) (by simp)
-    (.leaf (.path "a")) rfl (by simp [Dict.get]) rfl
-  simp [Dict.get, map, prodObj] at this
-
-/-- F72: `value = kwargs.get(name) or …` tests the declared value for truthiness, so
-`produces=[]` is collected as `PythonNode(value=None)` and that node object is what the function gets. -/
-theorem C07_products_full_false_F72 : ¬ C07_products_full := by
-  intro h
-  have := h ⟨[⟨"produces", some (.list []), none, false⟩], none, [], none⟩
-    ⟨[], [("produces", .leaf (.pyNode "None" false))]⟩ [("produces", .leaf (.node (.pyNode "None" false)))]
-    ⟨"produces", some (.list []), none, false⟩ (by rfl) (by rfl) (by simp) (by simp)
-    (.list []) rfl (by simp [Dict.get]) rfl
-  simp [Dict.get, map, mapL] at this
-
 end TaskArgs
 
 /-! ## non-vacuity -/
@@ -341,12 +286,12 @@ end PyTree
 namespace TaskArgs
 open PyTree
 
-/-- `C07_dep_partial`'s hypothesis on a mixed declaration (a path, a value, a hashed PythonNode, a pickle node). -/
-example : f70Class (.dict [(.str "a", .list [.leaf (.path 1), .leaf (.value 2)]),
-    (.str "b", .tuple [.leaf (.pyNode 3 true), .leaf (.pickle 4)])] : T (Decl Nat Nat)) = false := rfl
+/-- the former F70 witness `{"a": PythonNode(value=1), "b": 2}` now arrives as `{"a": 1, "b": 2}`. -/
+example : PyTree.bind (load false) (collectDep (.dict [(.str "a", .leaf (.pyNode 1 false)), (.str "b", .leaf (.value 2))] : T (Decl Nat Nat)))
+    = .dict [(.str "a", .leaf (.val 1)), (.str "b", .leaf (.val 2))] := rfl
 
-/-- and F70's class is inhabited by the witness of `C07_dep_full_false`. -/
-example : f70Class (.dict [(.str "a", .leaf (.pyNode 1 false)), (.str "b", .leaf (.value 2))] : T (Decl Nat Nat)) = true := rfl
+/-- a container of plain values is still stored in one node, and loads back to itself. -/
+example : collectDep (.list [.leaf (.value 1), .leaf (.value 2)] : T (Decl Nat Nat)) = .leaf (.pyTree (.list [.leaf (.value 1), .leaf (.value 2)])) := rfl
 
 end TaskArgs
 end Pytask
@@ -358,15 +303,13 @@ variable {V P : Type}
 
 /-- **kwargs_correct, per parameter.** In a collected task whose `depends_on[name]` is the collected
 declaration `value` (and `name` is not a product), the function's parameter `name` receives
-`value` with every leaf replaced by what its node loads to — same containers, same positions —
-unless `value` lies in the class of finding F70. -/
+`value` with every leaf replaced by what its node loads to — same containers, same positions. -/
 theorem C07_param_dependency (params : List String) (dependsOn produces : Dict (T (Node V P)))
     (hn : (Dict.keys produces).Nodup) (name : String) (value : T (Decl V P))
-    (hd : Dict.get dependsOn name = some (collectDep value)) (hnp : Dict.contains produces name = false)
-    (h70 : f70Class value = false) :
+    (hd : Dict.get dependsOn name = some (collectDep value)) (hnp : Dict.contains produces name = false) :
     Dict.get (kwargsOf params dependsOn produces) name = some (map depObj value) := by
   rw [C07_kwargs_correct params dependsOn produces hn name, hnp, hd]
-  simp [C07_dep_partial value h70]
+  simp [C07_dep_full value]
 
 /-- A product parameter of the function receives its declared tree with paths as paths and nodes
 as node objects (`is_product=True`), whatever `depends_on` holds under that name. -/
@@ -427,11 +370,11 @@ theorem C07_parseProds (pv : PyVals V) (f : Func V P) (hdeco : f.produces = none
   rw [Dict.get_foldl_set (fun n => mapWithPath (fun _ d => collectLeaf d) (f.productValue pv n))]
   simp only [List.mem_filter, mapWithPath_const, Dict.get]
 
-/-- Outside finding F72 (`productValue` falls back only for *falsy* declarations) the value collected
-for a product name is the declared one: `{**defaults, **task_kwargs}[name]`. -/
+/-- The value collected for a product name is the declared one, `{**defaults, **task_kwargs}[name]`,
+also when it is falsy (`produces=[]`; fix 123c420 removed finding F72). -/
 theorem C07_productValue (pv : PyVals V) (f : Func V P) (name : String) (v : T (Decl V P))
-    (h : Dict.get f.merged name = some v) (h72 : isFalsy pv v = false) : f.productValue pv name = v := by
-  simp [Func.productValue, h, h72]
+    (h : Dict.get f.merged name = some v) : f.productValue pv name = v := by
+  simp [Func.productValue, h, Generated.productFalsyFallsBack]
 
 end TaskArgs
 end Pytask
@@ -441,8 +384,8 @@ namespace TaskArgs
 open PyTree
 variable {V P : Type}
 
-/-- **Products, parse level, with `@task(produces=…)`** — the code as it is (finding F71): the
-products dict consists of the `return` entry alone, whatever product parameters were parsed before. -/
+/-- **Products, parse level, with `@task(produces=…)`**: the `return` entry is *added* to the products
+parsed from the parameters (fix 2e11e34 removed finding F71, where it replaced them). -/
 theorem C07_parseProds_decorator (pv : PyVals V) (f : Func V P) (tp : T (Decl V P)) (c : T (Node V P))
     (hdeco : f.produces = some tp) (ht : isFalsy pv tp = false) (hc : collectProd true tp = .ok c)
     (hr : Dict.contains f.nodeAnnot "return" = false)
@@ -450,8 +393,237 @@ theorem C07_parseProds_decorator (pv : PyVals V) (f : Func V P) (tp : T (Decl V 
         (fun n => Dict.contains f.merged n && Dict.contains f.nodeAnnot n) = false)
     (hret : (f.productNames.filter (fun n => Dict.contains f.merged n || Dict.contains f.nodeAnnot n)).any
         (fun n => n == "return" && (leaves (f.productValue pv n)).any isPlainValue) = false) :
-    parseProds pv f = .ok [("return", c)] := by
-  simp [parseProds, htwice, hret, hdeco, ht, hc, hr, Generated.taskProducesReplaces]
+    ∃ out, parseProds pv f = .ok (Dict.set out "return" c) ∧ ∀ name,
+      Dict.get out name =
+        if name ∈ f.productNames ∧ (Dict.contains f.merged name || Dict.contains f.nodeAnnot name) = true
+        then some (map collectLeaf (f.productValue pv name)) else none := by
+  refine ⟨_, by simp only [parseProds, htwice, hret, hdeco, ht, hc, hr, Generated.taskProducesReplaces]; rfl, ?_⟩
+  intro name
+  rw [Dict.get_foldl_set (fun n => mapWithPath (fun _ d => collectLeaf d) (f.productValue pv n))]
+  simp only [List.mem_filter, mapWithPath_const, Dict.get]
+
+end TaskArgs
+end Pytask
+
+namespace Pytask
+namespace TaskArgs
+open PyTree
+variable {V P : Type}
+
+/-- What a successful `parse_products_from_task_function` returns: distinct keys, and under every
+name other than `return` the collected declared value of a visited product name. -/
+theorem C07_parseProds_ok (pv : PyVals V) (f : Func V P) (pr : Dict (T (Node V P))) (h : parseProds pv f = .ok pr) :
+    (Dict.keys pr).Nodup ∧ ∀ name, name ≠ "return" →
+      Dict.get pr name =
+        if name ∈ f.productNames ∧ (Dict.contains f.merged name || Dict.contains f.nodeAnnot name) = true
+        then some (map collectLeaf (f.productValue pv name)) else none := by
+  have hout : ∀ name, Dict.get ((f.productNames.filter (fun n => Dict.contains f.merged n || Dict.contains f.nodeAnnot n)).foldl
+      (fun acc n => Dict.set acc n (mapWithPath (fun _ d => collectLeaf d) (f.productValue pv n))) []) name =
+      if name ∈ f.productNames ∧ (Dict.contains f.merged name || Dict.contains f.nodeAnnot name) = true
+      then some (map collectLeaf (f.productValue pv name)) else none := by
+    intro name
+    rw [Dict.get_foldl_set (fun n => mapWithPath (fun _ d => collectLeaf d) (f.productValue pv n))]
+    simp only [List.mem_filter, mapWithPath_const, Dict.get]
+  have hnd := Dict.keys_foldl_set_nodup (fun n => mapWithPath (fun _ d => collectLeaf d) (f.productValue pv n))
+    (f.productNames.filter (fun n => Dict.contains f.merged n || Dict.contains f.nodeAnnot n)) [] (by simp [Dict.keys])
+  unfold parseProds at h
+  dsimp only at h
+  split at h
+  · cases h
+  · split at h
+    · cases h
+    · split at h
+      · simp only [Except.ok.injEq] at h; subst h
+        exact ⟨hnd, fun name _ => hout name⟩
+      · split at h
+        · simp only [Except.ok.injEq] at h; subst h
+          exact ⟨hnd, fun name _ => hout name⟩
+        · split at h
+          · cases h
+          · split at h
+            · cases h
+            · simp only [Generated.taskProducesReplaces, Bool.false_eq_true, ↓reduceIte, Except.ok.injEq] at h
+              subst h
+              refine ⟨Dict.keys_set_nodup _ _ _ hnd, ?_⟩
+              intro name hne
+              rw [Dict.get_set]
+              simp only [Ne.symm hne, ↓reduceIte]
+              exact hout name
+
+/-- `{**signature_defaults, **task_kwargs}[p.name]` is the default of `p` when `@task(kwargs=…)` does not mention it. -/
+theorem C07_merged_default (f : Func V P) (p : Param V P) (hn : f.paramNames.Nodup) (hp : p ∈ f.params)
+    (hk : Dict.get f.kwargs p.name = none) : Dict.get f.merged p.name = p.default := by
+  unfold Func.merged
+  rw [Dict.get_update_none _ _ _ hk]
+  exact get_filterMap_params (fun q => q.default) f.params hn p hp
+
+/-- a `Product`-annotated parameter, and the parameter called `produces`, are visited by the product loop. -/
+theorem C07_mem_productNames (f : Func V P) (p : Param V P) (hp : p ∈ f.params)
+    (hprod : p.product = true ∨ p.name = "produces") : p.name ∈ f.productNames := by
+  have h1 : p.name ∈ (if f.paramNames.contains "produces" && !f.productAnnot.contains "produces"
+      then f.productAnnot ++ ["produces"] else f.productAnnot) := by
+    by_cases hpa : p.name ∈ f.productAnnot
+    · split <;> simp [hpa]
+    · rcases hprod with h | h
+      · exact absurd (by simp only [Func.productAnnot, List.mem_map, List.mem_filter]; exact ⟨p, ⟨hp, h⟩, rfl⟩) hpa
+      · have hc : "produces" ∈ f.paramNames := by
+          simp only [Func.paramNames, List.mem_map]
+          exact ⟨p, hp, h⟩
+        rw [h] at hpa
+        simp [hc, hpa, h]
+  unfold Func.productNames
+  dsimp only
+  split
+  · exact List.mem_append_left _ h1
+  · exact h1
+
+/-- **kwargs_correct, products (full).** For every task function whose collection succeeds and whose
+call is possible, a product parameter — `Annotated[..., Product]` or the parameter `produces` —
+declared by a signature default `d` is bound to `d` with paths as paths and nodes as node objects,
+whatever other declaration forms the function mixes in: `@task(produces=…)` (finding F71, fixed by
+2e11e34), empty containers (F72, fixed by 123c420), return annotations, `@task(kwargs=…)` for
+other parameters. Hypotheses `hn`, `hret` are guaranteed by Python (distinct parameter names,
+`return` is a keyword). -/
+theorem C07_products_full (pv : PyVals V) (f : Func V P) (t : Task V P) (r : Dict (T (Obj V P))) (p : Param V P)
+    (hn : f.paramNames.Nodup) (hret : "return" ∉ f.paramNames)
+    (hc : collectTask pv f = .ok t) (hr : received f t = .ok r) (hp : p ∈ f.params)
+    (hprod : p.product = true ∨ p.name = "produces") (d : T (Decl V P)) (hd : p.default = some d)
+    (hk : Dict.get f.kwargs p.name = none) :
+    Dict.get r p.name = some (map prodObj d) := by
+  unfold collectTask at hc
+  split at hc
+  · cases hc
+  · rename_i dd _
+    split at hc
+    · cases hc
+    · rename_i pr hpr
+      simp only [Except.ok.injEq] at hc; subst hc
+      obtain ⟨hnd, hget⟩ := C07_parseProds_ok pv f pr hpr
+      have hne : p.name ≠ "return" := by
+        intro heq; apply hret; rw [← heq]; exact List.mem_map.2 ⟨p, hp, rfl⟩
+      have hm : Dict.get f.merged p.name = some d := by rw [C07_merged_default f p hn hp hk, hd]
+      have hpg : Dict.get pr p.name = some (map collectLeaf d) := by
+        rw [hget p.name hne, C07_productValue pv f p.name d hm]
+        simp [C07_mem_productNames f p hp hprod, Dict.contains, hm]
+      have hkw : Dict.get (kwargsOf f.paramNames dd pr) p.name = some (map prodObj d) := by
+        rw [C07_kwargs_correct f.paramNames dd pr hnd p.name]
+        have hin : p.name ∈ f.paramNames := List.mem_map.2 ⟨p, hp, rfl⟩
+        have e : PyTree.bind (load true) (map collectLeaf d) = map prodObj d := by
+          rw [PyTree.bind_map]
+          simp only [load_collectLeaf_prod]
+          rw [bind_leaf]
+        simp [hin, Dict.contains, hpg, e]
+      unfold received at hr
+      dsimp only at hr
+      split at hr
+      · simp only [Except.ok.injEq] at hr; subst hr
+        rw [get_filterMap_params (fun q => bound (kwargsOf f.paramNames dd pr) q) f.params hn p hp]
+        simp [bound, hkw]
+      · cases hr
+
+end TaskArgs
+end Pytask
+
+namespace Pytask
+namespace TaskArgs
+open PyTree
+variable {V P : Type}
+
+theorem C07_param_of_name (params : List (Param V P)) (hn : (params.map (·.name)).Nodup) (p q : Param V P)
+    (hp : p ∈ params) (hq : q ∈ params) (h : q.name = p.name) : q = p := by
+  induction params with
+  | nil => simp at hp
+  | cons a rest ih =>
+    simp only [List.map_cons, List.nodup_cons] at hn
+    rcases List.mem_cons.1 hp with rfl | hp' <;> rcases List.mem_cons.1 hq with rfl | hq'
+    · rfl
+    · exact absurd (List.mem_map.2 ⟨q, hq', h⟩) hn.1
+    · exact absurd (List.mem_map.2 ⟨p, hp', h.symm⟩) hn.1
+    · exact ih hn.2 hp' hq'
+
+theorem C07_productNames_sub (f : Func V P) (name : String) (h : name ∈ f.productNames) :
+    name ∈ f.productAnnot ∨ name = "produces" ∨ name = "return" := by
+  unfold Func.productNames at h
+  dsimp only at h
+  split at h <;> split at h <;> grind
+
+/-- **kwargs_correct, dependencies (full).** For every task function whose collection succeeds and
+whose call is possible, a parameter that is not a product and is declared by a signature default
+`d` is bound to `d` with every leaf replaced by the value loaded from its node — containers and
+positions preserved — whatever other declaration forms the function uses. -/
+theorem C07_dependencies_full (pv : PyVals V) (f : Func V P) (t : Task V P) (r : Dict (T (Obj V P))) (p : Param V P)
+    (hn : f.paramNames.Nodup) (hret : "return" ∉ f.paramNames)
+    (hc : collectTask pv f = .ok t) (hr : received f t = .ok r) (hp : p ∈ f.params)
+    (hnprod : p.product = false) (hnname : p.name ≠ "produces") (d : T (Decl V P)) (hd : p.default = some d)
+    (hk : Dict.get f.kwargs p.name = none) :
+    Dict.get r p.name = some (map depObj d) := by
+  unfold collectTask at hc
+  split at hc
+  · cases hc
+  · rename_i dd hdd
+    split at hc
+    · cases hc
+    · rename_i pr hpr
+      simp only [Except.ok.injEq] at hc; subst hc
+      obtain ⟨hnd, hget⟩ := C07_parseProds_ok pv f pr hpr
+      have hne : p.name ≠ "return" := by
+        intro heq; apply hret; rw [← heq]; exact List.mem_map.2 ⟨p, hp, rfl⟩
+      have hm : Dict.get f.merged p.name = some d := by rw [C07_merged_default f p hn hp hk, hd]
+      have hnpa : p.name ∉ f.productAnnot := by
+        intro hmem
+        simp only [Func.productAnnot, List.mem_map, List.mem_filter] at hmem
+        obtain ⟨q, ⟨hq, hqp⟩, hqn⟩ := hmem
+        have := C07_param_of_name f.params hn p q hp hq hqn
+        subst this
+        simp [hnprod] at hqp
+      have hpg : Dict.get pr p.name = none := by
+        rw [hget p.name hne]
+        have : p.name ∉ f.productNames := by
+          intro hmem
+          rcases C07_productNames_sub f p.name hmem with h | h | h
+          · exact hnpa h
+          · exact hnname h
+          · exact hne h
+        simp [this]
+      have hdg : Dict.get dd p.name = some (collectDep d) := by
+        cases hany : f.nodeAnnot.any (fun kv => Dict.contains (Dict.erase f.merged "produces") kv.1) with
+        | true => simp [parseDeps, hany] at hdd
+        | false =>
+          obtain ⟨d', h1, h2⟩ := C07_parseDeps f hany
+          rw [h1] at hdd
+          simp only [Except.ok.injEq] at hdd; subst hdd
+          rw [h2 p.name]
+          have he : Dict.get (Dict.erase f.merged "produces") p.name = some d := by
+            unfold Dict.erase
+            rw [Dict.get_filter_key (fun k => decide (k ≠ "produces")) f.merged p.name]
+            simp [hnname, hm]
+          simp [hnpa, hne, he]
+      have hkw : Dict.get (kwargsOf f.paramNames dd pr) p.name = some (map depObj d) := by
+        rw [C07_kwargs_correct f.paramNames dd pr hnd p.name]
+        simp [Dict.contains, hpg, hdg, C07_dep_full d]
+      unfold received at hr
+      dsimp only at hr
+      split at hr
+      · simp only [Except.ok.injEq] at hr; subst hr
+        rw [get_filterMap_params (fun q => bound (kwargsOf f.paramNames dd pr) q) f.params hn p hp]
+        simp [bound, hkw]
+      · cases hr
+
+/-- non-vacuity of `C07_products_full` / `C07_dependencies_full`: the former F71 witness —
+`@task(produces=ret) def f(path: Annotated[Path, Product] = a, x=[1, b])` — is collected, can be called, and
+binds `path` to the resolved path and `x` to the loaded list. -/
+example : let f : Func String String :=
+      ⟨[⟨"path", some (.leaf (.path "a")), none, true⟩, ⟨"x", some (.list [.leaf (.value "1"), .leaf (.path "b")]), none, false⟩],
+        none, [], some (.leaf (.path "ret"))⟩
+    ∃ t r, collectTask ⟨"None", fun v => v == "None"⟩ f = .ok t ∧ received f t = .ok r ∧
+      Dict.get t.produces "path" = some (.leaf (.pathNode "a")) ∧
+      r = [("path", .leaf (.path "a")), ("x", .list [.leaf (.val "1"), .leaf (.path "b")])] :=
+  ⟨_, _, rfl, rfl, rfl, rfl⟩
+
+/-- the former F72 witness: `def f(produces=[])` receives `[]`. -/
+example : let f : Func String String := ⟨[⟨"produces", some (.list []), none, false⟩], none, [], none⟩
+    ∃ t r, collectTask ⟨"None", fun v => v == "None"⟩ f = .ok t ∧ received f t = .ok r ∧ r = [("produces", .list [])] :=
+  ⟨_, _, rfl, rfl, rfl⟩
 
 end TaskArgs
 end Pytask
